@@ -28,6 +28,11 @@ OpsOf(ty, exists) ==
     [] ty = "lnk"  -> {"lstat", "readlink", "symlink", "rename"}
     [] OTHER       -> {"lstat", "open-parent", "mknod"}
 
+(* file data may arrive for ANY index of the list, requested or not and      *)
+(* whatever the entry's type (receiver.go RecvFiles does not track requests): *)
+(* a hostile sender reaches these operations for every entry                  *)
+UnrequestedDataOps == {"open-basis", "create-temp", "rename", "chmod", "chtimes"}
+
 Escapes(name, abs, sentS) ==
   \/ NaiveLoc(name, abs, sentS, TRUE).reg = "out"
   \/ NaiveLoc(name, abs, sentS, FALSE).reg = "out"
